@@ -10,7 +10,7 @@ import "math/big"
 
 func VerifAndMax(x IntRange, y IntRange) *big.Int { return x.andMax(y) }
 func VerifOrMax(x IntRange, y IntRange) *big.Int  { return x.orMax(y) }
-func VerifBitFillRight(i *big.Int)                 { bitFillRight(i) }
+func VerifBitFillRight(i *big.Int)                { bitFillRight(i) }
 
 func VerifSplit2Ways(x IntRange) (IntRange, IntRange, bool, bool) { return x.split2Ways() }
 func VerifSplit3Ways(x IntRange) (IntRange, IntRange, bool, bool, bool) {
@@ -32,3 +32,49 @@ func VerifShared(p *big.Int) bool {
 	}
 	return false
 }
+
+// VerifSharedSnapshot renders every package-level *big.Int (value and pointer
+// structure), so that a caller can detect that one of them was modified.
+func VerifSharedSnapshot() string {
+	b := []byte("one=")
+	b = one.Append(b, 10)
+	b = append(b, " minusOne="...)
+	b = minusOne.Append(b, 10)
+	if sharedEmptyRange[0] != one || sharedEmptyRange[1] != minusOne {
+		b = append(b, " sharedEmptyRange=repointed:"...)
+		b = append(b, sharedEmptyRange.String()...)
+	}
+	b = append(b, " masks="...)
+	for i, m := range smallBitMasks {
+		if i > 0 {
+			b = append(b, ',')
+		}
+		b = m.Append(b, 10)
+	}
+	return string(b)
+}
+
+// VerifSharedRestore puts the package-level values back (after a detected
+// corruption, so that the remaining cases of a run stay meaningful).
+func VerifSharedRestore() {
+	one.SetInt64(1)
+	minusOne.SetInt64(-1)
+	sharedEmptyRange = IntRange{one, minusOne}
+	for i, m := range smallBitMasks {
+		m.SetInt64(int64(1)<<uint(i) - 1)
+	}
+}
+
+// Per-function hooks for the sign-split helpers of And / Or.
+
+func VerifAndBothNonNeg(x IntRange, y IntRange) IntRange { return andBothNonNeg(x, y) }
+func VerifOrBothNonNeg(x IntRange, y IntRange) IntRange  { return orBothNonNeg(x, y) }
+func VerifAndOneNegOneNonNeg(neg IntRange, non IntRange) IntRange {
+	return andOneNegOneNonNeg(neg, non)
+}
+func VerifOrOneNegOneNonNeg(neg IntRange, non IntRange) IntRange {
+	return orOneNegOneNonNeg(neg, non)
+}
+
+// VerifInPlaceUnite calls z.inPlaceUnite(w); z must own its *big.Int values.
+func VerifInPlaceUnite(z *IntRange, w IntRange) { z.inPlaceUnite(w) }
